@@ -91,7 +91,7 @@ class C18(Prop):
             # days are often identical (weekdays alike, same pattern in several schedules), as on real controllers
             pool = [[int(rng.random() < rng.choice([0.1, 0.5, 0.9])) for _ in range(48)] for _ in range(rng.choice([1, 2, 7]))]
             for i in idxs:
-                scheds.append({"index": i, "switch": rng.choice([0, 1]), "param": [rng.randrange(256), 0, 255],
+                scheds.append({"index": i, "switch": rng.choice([0, 1]), "param": [rng.choice([0, 1, 254, 255, 255, rng.randrange(256)]), rng.choice([0, 0, 10]), rng.choice([255, 255, 254])],
                                "bits": [list(rng.choice(pool)) for _ in range(7)]})
             target = rng.randrange(k)
             rounds = []
